@@ -8,6 +8,7 @@ from jaqalpaq.core.algorithm.visitor import Visitor
 from jaqalpaq.core import circuitbuilder
 from jaqalpaq.core.register import Register, NamedQubit
 from jaqalpaq.core.constant import Constant
+from jaqalpaq.core.parameter import make_item_name
 
 
 def fill_in_let(circuit, override_dict=None):
@@ -118,6 +119,11 @@ class LetFiller(Visitor):
         new_from = self.visit(qubit.alias_from)
         if new_index is qubit.alias_index and new_from is qubit.alias_from:
             return qubit
+        if qubit.name != make_item_name(qubit.alias_from, qubit.alias_index):
+            # A qubit named by a map statement keeps that name; written out
+            # as an indexed register it could be captured by a macro
+            # parameter of the register's name.
+            return NamedQubit(qubit.name, new_from, new_index)
         return new_from[new_index]
 
     def visit_Register(self, reg):
